@@ -62,9 +62,8 @@ IsRun(x) == x >= 256
 RunLen(x) == (x - 256) \div 256
 RunByte(x) == (x - 256) % 256
 RunIdx(s) == {i \in 1..Len(s) : s[i] >= 256}
-RECURSIVE SumRuns(_, _)
-SumRuns(s, R) == IF R = {} THEN 0
-                 ELSE LET i == CHOOSE i \in R : TRUE IN RunLen(s[i]) - 1 + SumRuns(s, R \ {i})
+FSE == INSTANCE FiniteSetsExt      \* FoldSet is evaluated iteratively (no recursion over the input)
+SumRuns(s, R) == FSE!FoldSet(LAMBDA i, acc : acc + RunLen(s[i]) - 1, 0, R)
 BLen(s) == Len(s) + SumRuns(s, RunIdx(s))            \* length in bytes
 BOff(s, i) == BLen(SubSeq(s, 1, i - 1))               \* byte offset of item i (0-based)
 
